@@ -58,7 +58,9 @@ pub struct Chitchat {
     cluster_state: ClusterState,
     failure_detector: FailureDetector,
     /// Notifies listeners when a change has occurred in the set of live nodes.
-    previous_live_nodes: HashMap<ChitchatId, Version>,
+    /// For each live node, the (last GC version, max version) of its state at the last
+    /// notification: the key-values of a node can only change if one of the two changes.
+    previous_live_nodes: HashMap<ChitchatId, (Version, Version)>,
     live_nodes_watcher_tx: watch::Sender<BTreeMap<ChitchatId, NodeState>>,
     live_nodes_watcher_rx: watch::Receiver<BTreeMap<ChitchatId, NodeState>>,
 }
@@ -220,7 +222,12 @@ impl Chitchat {
             .live_nodes()
             .flat_map(|chitchat_id| {
                 if let Some(node_state) = self.node_state(chitchat_id) {
-                    return Some((chitchat_id.clone(), node_state.max_version()));
+                    // The GC of a tombstone or of an expired TTL entry removes a key without
+                    // changing the max version: it raises the last GC version instead.
+                    return Some((
+                        chitchat_id.clone(),
+                        (node_state.last_gc_version(), node_state.max_version()),
+                    ));
                 }
                 warn!("node state for {chitchat_id:?} is absent");
                 None
